@@ -49,8 +49,11 @@ DoubleGroupsT == {<<"u">>, <<"o">>, <<"g", "o">>, <<"a">>}
 DoublePermsT  == {<<"r">>, <<"x">>, <<"w", "x">>, <<"r", "w", "x">>}
 DClauses == {Clause(t, g, o, p) : t \in {"d", "f", "a"}, g \in DoubleGroups, o \in {"-", "+", "="}, p \in DoublePerms}
 Doubles == {c1 \o <<",">> \o c2 : c1 \in DClauses, c2 \in DClauses}
-Strings == UNION {[1..n -> Alphabet] : n \in 0..MaxLen}
-Longs == UNION {{<<t, ":">> \o s : t \in {"d", "f", "a"}, s \in [1..n -> Alphabet]} : n \in (MaxLen - 1)..(LongLen - 2)}
+\* the raw strings are enumerated by Init length by length (TLC's UNION of large sets is quadratic):
+\*   Strings  = every string over Alphabet up to MaxLen
+\*   Longs    = [dfa] ":" s  for every s with MaxLen - 1 <= Len(s) <= LongLen - 2 (a string with another head is rejected within two steps whatever follows)
+\*   LaterBad = "a:u+x," s   for every s up to MaxLen - 1 (a good clause, then any string)
+GoodHead == <<"a", ":", "u", "+", "x", ",">>
 HandWritten == {
    <<"a", ":", "a", "=", "r", "w", "x", ",", "f", ":", "a", "-", "x", ",", "d", ":", "o", "-", "w">>,    \* three clauses
    <<"d", ":", "u", "-", "r", ",", "a", ":", "o", "a", "+", "w">>,                                        \* group letters in any order
@@ -62,9 +65,10 @@ HandWritten == {
    <<"a", ":", "u", "+", "x", ",">>, <<"a", ":", "u", "+", "x", ",", ",", "a", ":", "u", "+", "r">>,      \* empty later clause: unsettled
    <<"a", ":", "u", "+", "x", ",", "f", ":", "a", "+">>,                                                  \* later clause without permission
    <<"a", ":", "u", "+", "-", "x">>, <<"a", ":", "+", "x">>, <<"a", "u", "+", "x">>, <<"u", "+", "x">> }
-LaterBad == UNION {{<<"a", ":", "u", "+", "x", ",">> \o s : s \in [1..n -> Alphabet]} : n \in 0..(MaxLen - 1)}   \* a good clause, then any string
 WellFormedOnes == Singles \cup Doubles \cup HandWritten
-RawOnes == Strings \cup Longs \cup LaterBad        \* may overlap with WellFormedOnes: that is the same initial state then
+IsRaw(e) == \/ \E n \in 0..MaxLen : e \in [1..n -> Alphabet]
+            \/ \E n \in (MaxLen - 1)..(LongLen - 2) : \E t \in {"d", "f", "a"} : \E x \in [1..n -> Alphabet] : e = <<t, ":">> \o x
+            \/ \E n \in 0..(MaxLen - 1) : \E x \in [1..n -> Alphabet] : e = GoodHead \o x
 
 \* ---- the scanner ----
 Matched == kind # "link" /\ (tgt = "a" \/ (tgt = "d" /\ kind = "dir") \/ (tgt = "f" /\ kind = "file"))
@@ -74,8 +78,8 @@ Applied == LET B == gacc \cap pacc IN
 Entry == [t |-> tgt, G |-> gacc, o |-> op, P |-> pacc, m |-> Matched, b |-> perm, a |-> Applied]
 
 \* well-formed expressions from every start permission; the raw strings (whose fate does not depend on the mode) from StringPerms
-Init == /\ \/ expr \in WellFormedOnes /\ kind \in Kinds /\ \E p \in StartPerms : m0 = TypeOfKind(kind) + p
-           \/ expr \in RawOnes /\ kind \in RawKinds /\ \E p \in StringPerms : m0 = TypeOfKind(kind) + p
+Init == /\ \/ (expr \in Singles \/ expr \in Doubles \/ expr \in HandWritten) /\ kind \in Kinds /\ \E p \in StartPerms : m0 = TypeOfKind(kind) + p
+           \/ IsRaw(expr) /\ kind \in RawKinds /\ \E p \in StringPerms : m0 = TypeOfKind(kind) + p
         /\ inp = expr /\ st = "target" /\ ci = 1 /\ tgt = "-" /\ gacc = {} /\ op = "0" /\ pacc = {}
         /\ perm = Bits(m0) \cap 0..8 /\ log = <<>>
 
